@@ -59,6 +59,12 @@ let () =
         (try
           (match cmd with
            | "WF" -> if stream_ok (wf_tokens args) then "1" else "0"
+           | "CM" ->
+             (match args with
+              | n :: rest ->
+                let (lines, _) = take_strs n rest in
+                (if in_F lines then "1" else "0") ^ " " ^ String.concat " " (List.map (fun c -> string_of_int (int_of_n c)) (html lines))
+              | [] -> "ERR empty")
            | "POS" ->
              (match args with
               | n :: rest ->
